@@ -240,7 +240,7 @@ def given(prog, rep):
         if ne and v[0] == "sub" and v[2][0] == "counter" and v[2][2] == ("const", 0) and v[2][3] == ("const", 1):
             # the counter must be incremented in the same branch
             incs = [s for s in cfg.all_stmts() if isinstance(s, (ast.AugAssign, ast.Assign)) and getattr(getattr(s, "target", None) or s.targets[0], "id", None) == v[2][1] and cfg.enclosing_loops(s)]
-            ok_giv = len(incs) == 1 and set(pcs.of(incs[0])) == set(pc) and "given" in show(v[1])
+            ok_giv = len(incs) == 1 and set(pcs.of(incs[0])) == set(pc) and any(s_[0] == "param" and s_[1] == "given" for s_ in walk(v[1]))
     rep.check(ok_own, "C16.given", f"{q}:own-column", fn.where(), "column dim receives x", "the evaluated variable x must be placed in column dim of the full point")
     rep.check(ok_giv, "C16.given", f"{q}:given-columns", fn.where(), "the other columns receive given[0], given[1], ... in order",
               "the conditioning values must fill the remaining columns in order (one counter, incremented exactly when a given value is consumed)")
@@ -289,6 +289,8 @@ def rng(prog, rep):
         rep.analysed(callee)
         has_rs = "random_state" in callee.params
         bb = builder(prog, callee, tm, inline=False)
+        gens = {t.id for s_ in ast.walk(callee.node) if isinstance(s_, ast.Assign) and isinstance(s_.value, ast.Call) and "default_rng" in ast.unparse(s_.value.func)
+                for t in s_.targets if isinstance(t, ast.Name)}
         for n in ast.walk(callee.node):
             if not (isinstance(n, ast.Call) and isinstance(n.func, ast.Attribute)):
                 continue
@@ -301,7 +303,7 @@ def rng(prog, rep):
                 v = kw["random_state"]
                 passes = (isinstance(v, ast.Name) and v.id == "random_state" and has_rs and seeded) or \
                          (isinstance(v, ast.Attribute) and v.attr == "random_state")
-            if name in ("draw_sample", "rvs", "conditional_sample") or name in GEN_METHODS and isinstance(n.func.value, ast.Name) and n.func.value.id == "rng":
+            if name in ("draw_sample", "rvs", "conditional_sample") or name in GEN_METHODS and isinstance(n.func.value, ast.Name) and n.func.value.id in gens:
                 n_sites[0] += 1
                 if name in GEN_METHODS:
                     continue  # rng = default_rng(random_state): covered by C07.rng; seeded iff this function was called seeded
@@ -344,7 +346,8 @@ def rng(prog, rep):
     bc = builder(prog, cs, inline=False)
     okg = False
     for st in cfg_of(cs).all_stmts():
-        if isinstance(st, ast.Assign) and isinstance(st.targets[0], ast.Name) and st.targets[0].id == "rng":
-            okg = bc.term(st.value, st) == ("call", G("numpy.random.default_rng"), (P("random_state"),), ())
+        if isinstance(st, ast.Assign) and isinstance(st.targets[0], ast.Name) and isinstance(st.value, ast.Call):
+            if bc.term(st.value, st) == ("call", G("numpy.random.default_rng"), (P("random_state"),), ()):
+                okg = True
     rep.check(okg, "C16.rng", f"{MM}.conditional_sample:generator", cs.where(), "rng = np.random.default_rng(random_state)",
               "the rejection sampler must draw from np.random.default_rng(random_state) only")
